@@ -144,6 +144,8 @@ pub struct Ctx {
     closure_fault_at: Cell<Option<u32>>,
     has_skip: bool,
     has_foreach: bool,
+    /// first positions of the clones made in this execution
+    clone_starts: RefCell<Vec<usize>>,
     /// a plan contains a chunk size of 0 or near usize::MAX (C16's inputs)
     has_extreme: bool,
 }
@@ -225,6 +227,39 @@ impl Ctx {
             }
         }
         drop(x);
+    }
+
+    /// what a clone made by `tid` delivered when drained: exactly the positions p..len in order, where p is the
+    /// original's position at some moment of the clone() call
+    fn on_clone(&self, tid: usize, ci: &CallInfo, got: &[(usize, Seen)]) {
+        let len = self.cfg.len;
+        let snap = ci.snap;
+        let p = got.first().map(|g| g.0).unwrap_or(len);
+        self.qlog.borrow_mut()[tid].push(format!("K:{p}+{}", got.len()));
+        for (j, (idx, s)) in got.iter().enumerate() {
+            if *idx != p + j || *idx >= len {
+                self.viol("C19", "clone-sequence", format!("a clone made on thread {tid} delivered index {idx} as its item #{j} (first index {p}, source length {len})"));
+                return;
+            }
+            if s.key != self.key_at(*idx) || !s.valid {
+                self.viol("C19", "clone-element", format!("a clone made on thread {tid} delivered key {} under index {idx}, the source holds key {}", s.key, self.key_at(*idx)));
+                return;
+            }
+            if self.cfg.kind.by_ref() && s.addr != self.src_base + idx * self.src_stride {
+                self.viol("C19", "address", format!("a clone made on thread {tid}: reference for position {idx} does not point at the collection's element"));
+                return;
+            }
+        }
+        if p + got.len() != len {
+            self.viol("C19", "clone-sequence", format!("a clone made on thread {tid} delivered positions {p}..{} and then reported the end, the source has {len} elements", p + got.len()));
+            return;
+        }
+        // "starts at the original's current position": not before what calls that had returned before clone() started had received
+        let lo = if snap[S_END] == 1 || snap[S_SKIP] == 1 { len } else { (snap[S_MAXPOS] as usize).min(len) };
+        if p < lo {
+            self.viol("C19", "clone-position", format!("a clone made on thread {tid} starts at position {p}, but calls that had returned before clone() started had already received everything below {lo} (end reported: {}, skipped: {})", snap[S_END], snap[S_SKIP]));
+        }
+        self.clone_starts.borrow_mut().push(p);
     }
 
     fn closure_entry(&self) {
@@ -341,6 +376,9 @@ impl Ctx {
             }
             if seen.iter().any(|s| self.pos_from_key(s.key).map_or(true, |p| p >= self.cfg.len)) {
                 self.viol("C03", "chunk-foreign-element", format!("{what} on thread {tid} returned a chunk at {b} containing elements that are not elements of the source"));
+            }
+            if let Some((j, s)) = seen.iter().enumerate().find(|(j, s)| b + j < self.cfg.len && self.pos_from_key(s.key).is_some_and(|p| p < self.cfg.len && p != b + j)) {
+                self.viol("C03", "chunk-not-consecutive", format!("{what} on thread {tid} returned a chunk at {b} whose item #{j} is the element of position {:?}: not consecutive source positions starting at the reported begin index", self.pos_from_key(s.key)));
             }
             if announced < n && b + announced != self.cfg.len && b + announced <= self.cfg.len {
                 self.viol("C03", "short-chunk", format!("{what} on thread {tid} returned {announced} < {n} elements starting at {b} although the source has {} elements", self.cfg.len));
@@ -522,7 +560,7 @@ fn on_panic(cx: &Ctx, tid: usize, what: &str, m: &str) {
     }
 }
 
-fn body<I: ConcurrentIter>(cx: &Ctx, it: &I, tid: usize, plan: &[Op])
+fn body<I: ConcurrentIter>(cx: &Ctx, it: &I, tid: usize, plan: &[Op], cloner: Option<fn(&I) -> I>)
 where
     I::Item: Obs,
 {
@@ -687,6 +725,36 @@ where
                     Err(m) => on_panic(cx, tid, &what, &m),
                 }
             }
+            Op::CloneDrain => {
+                let Some(cl) = cloner else { continue };
+                sh::begin_call();
+                let r = sh::guarded(|| subj(|| cl(it)));
+                let ci = sh::end_call();
+                match r {
+                    Ok(c) => {
+                        // the clone is private to this thread: drain it and judge what it delivers on its own
+                        let mut got: Vec<(usize, Seen)> = vec![];
+                        let r2 = sh::guarded(|| {
+                            while let Some(x) = subj(|| c.next_id_and_value()) {
+                                got.push((x.idx, obs(&x.value)));
+                                drop(x.value);
+                                if got.len() > cx.cfg.len + 2 {
+                                    break;
+                                }
+                            }
+                            subj(|| drop(c));
+                        });
+                        if let Err(m) = r2 {
+                            cx.viol("C19", "clone-panic", format!("a pull on a clone (thread {tid}) panicked: {m}"));
+                        }
+                        cx.on_clone(tid, &ci, &got);
+                    }
+                    Err(m) => {
+                        cx.qlog.borrow_mut()[tid].push("K:panic".into());
+                        cx.viol("C19", "clone-panic", format!("clone() on thread {tid} panicked: {m}"));
+                    }
+                }
+            }
             Op::Len => {
                 sh::begin_call();
                 let r = sh::guarded(|| it.try_get_len());
@@ -735,6 +803,13 @@ fn system<I: ConcurrentIter + 'static>(cfg: &SysCfg, make: &dyn Fn(&'static Src)
 where
     I::Item: Obs,
 {
+    system_c(cfg, make, None)
+}
+
+fn system_c<I: ConcurrentIter + 'static>(cfg: &SysCfg, make: &dyn Fn(&'static Src) -> I, cloner: Option<fn(&I) -> I>) -> System
+where
+    I::Item: Obs,
+{
     let fault = cfg.fault;
     ledger_reset(if let Fault::Clone(k) = fault { Some(k) } else { None });
     probe::probe_reset(if let Fault::Next(k) = fault { Some(k) } else { None });
@@ -760,6 +835,7 @@ where
         closure_fault_at: Cell::new(if let Fault::Closure(k) = fault { Some(k) } else { None }),
         has_skip: cfg.has_skip(),
         has_foreach: cfg.has_foreach(),
+        clone_starts: Default::default(),
         has_extreme: cfg.plans.iter().flatten().any(|o| matches!(o, Op::Chunk(n, _) | Op::DrainChunk(n) | Op::Buf(n, _, _) | Op::DrainBuf(n) if *n == 0 || *n > (1 << 40))),
     });
     let shared = Rc::new(Shared { it: Some(it), src });
@@ -768,7 +844,7 @@ where
         let cx = cx.clone();
         let shared = shared.clone();
         bodies.push(Box::new(move || {
-            body(&cx, shared.it.as_ref().unwrap(), tid, &plan);
+            body(&cx, shared.it.as_ref().unwrap(), tid, &plan, cloner);
         }));
     }
     let finish = Box::new(move |res: &ExecResult| -> String { finish(cx, shared, res) });
@@ -817,6 +893,14 @@ where
     if complete {
         if cfg.all_drain() && !cx.has_skip && !fault_fired && delivered != cfg.len {
             cx.viol("C01", "lost", format!("every thread pulled until it observed the end, yet only positions {:#b} of {} were delivered", mask, cfg.len));
+        }
+        if !cx.has_skip && delivered < cfg.len && mask == (1u64 << delivered) - 1 {
+            // the original never got beyond `delivered`: no clone can start later
+            for &p in cx.clone_starts.borrow().iter() {
+                if p > delivered {
+                    cx.viol("C19", "clone-position", format!("a clone started at position {p} but the original only ever reached position {delivered}"));
+                }
+            }
         }
         if !faulty {
             // length query at a quiescent point
@@ -962,8 +1046,8 @@ pub fn make_system(cfg: &SysCfg) -> System {
         v
     };
     match cfg.kind {
-        K::Slice => system(cfg, &|s| s.elems.as_slice().into_con_iter()),
-        K::VecRef => system(cfg, &|s| s.elems.con_iter()),
+        K::Slice => system_c(cfg, &|s| s.elems.as_slice().into_con_iter(), Some(|i| i.clone())),
+        K::VecRef => system_c(cfg, &|s| s.elems.con_iter(), Some(|i| i.clone())),
         K::Vec => system(cfg, &|_s| owned().into_con_iter()),
         K::Array => match len {
             0 => arr!(cfg, 0),
@@ -975,7 +1059,7 @@ pub fn make_system(cfg: &SysCfg) -> System {
             6 => arr!(cfg, 6),
             _ => panic!("array kind supports len 0..=6"),
         },
-        K::Range => system(cfg, &|_s| (RANGE_START..RANGE_START + len).con_iter()),
+        K::Range => system_c(cfg, &|_s| (RANGE_START..RANGE_START + len).con_iter(), Some(|i| i.clone())),
         K::IterExact => system(cfg, &|_s| Probe::new(owned(), Hint::Exact, false).into_con_iter()),
         K::IterUnk => system(cfg, &|_s| Probe::new(owned(), Hint::Unbounded, false).into_con_iter()),
         K::IterInexact => system(cfg, &|_s| Probe::new(owned(), Hint::Inexact, false).into_con_iter()),
